@@ -307,13 +307,30 @@ pub fn main(opts: &Opts) {
     }
     let jobs: Vec<Case> = cases.clone();
     let t0 = std::time::Instant::now();
-    let obs = run_pool(jobs, 16, move |c| {
-        let o = run_case(&c, window);
-        // one retry for results that depend on scheduling noise (a watchdog that fired although a
-        // message was complete is only believed if it fires twice)
-        o
-    });
+    // thread-level watchdog: a receive loop that spins inside one poll never returns to the runtime, so
+    // the async timeout in `observe` cannot fire; such a case is reported as `spin`, its thread abandoned
+    let limit = std::cmp::max(Duration::from_secs(15), window * 10);
+    let obs = run_pool_watchdog_opt(jobs, 16, limit, 8, move |c| run_case(&c, window));
+    let mut skipped = 0u64;
+    let obs: Vec<Option<Obs>> = obs
+        .into_iter()
+        .map(|r| match r {
+            Ok(o) => Some(o),
+            Err(Stuck::Timeout) => Some(Obs {
+                msgs: vec![],
+                end: "spin",
+                again: "-",
+                note: format!("recv() did not return to the runtime within {}s (thread watchdog)", limit.as_secs()),
+            }),
+            Err(Stuck::Skipped) => {
+                skipped += 1;
+                None
+            }
+        })
+        .collect();
+    sink.add("skipped_after_8_spinning_threads", skipped);
     for (c, o) in cases.iter().zip(obs) {
+        let Some(o) = o else { continue };
         let d = c.descr();
         let state = match c.end { End::Quiet => "open", End::Eof | End::EofHold => "closed", End::Abort => "aborted" };
         // after an abortive close the bytes the client saw are not determined by the script
